@@ -3,6 +3,7 @@
 set -u
 patch="$1"; tier="$2"; shift 2
 if ! git -C /repo diff --quiet; then echo "repo dirty"; exit 2; fi
+rm -rf /verif/target/evidence.bak; cp -r /verif/evidence /verif/target/evidence.bak
 git -C /repo apply "$patch" || { echo "patch does not apply"; exit 2; }
 cd /verif
 for id in "$@"; do
@@ -10,3 +11,5 @@ for id in "$@"; do
   printf "%s rc=%d  %s\n" "$id" "$rc" "$(echo "$out" | grep -m1 'what:' | cut -c1-260)"
 done
 git -C /repo checkout -- .
+# evidence must only ever describe the unchanged tree: restore what was there before the seeded run
+rm -rf /verif/evidence; cp -r /verif/target/evidence.bak /verif/evidence
